@@ -52,6 +52,30 @@ def measure(yaw_e, yaw_g, rendering, ego, sign_e=1, sign_g=1, roll=0.0, pitch=0.
     return w, w2, he, he2, ap.tp_list[0]
 
 
+def aph_of_three(yaw_e, yaw_g, rendering, ego):
+    """three TPs with heading differences d, d + 90 deg, d + 180 deg handed to Ap in an order that is NOT the confidence order: each TP contributes
+    the weight of ITS OWN pair -> (increments of tp_list in confidence order, the three weights computed pair by pair in that order)"""
+    from perception_eval.evaluation.metrics.detection.ap import Ap
+    from perception_eval.evaluation.metrics.detection.tp_metrics import TPMetricsAph
+    from perception_eval.evaluation.result.object_result import DynamicObjectWithPerceptionResult
+
+    from ..build import AW, MODES, obj3d
+
+    fr = "map" if rendering == "map" else "base_link"
+    tf = ego.transforms() if ego is not None else None
+    rs = []
+    for i, (extra, conf) in enumerate(((0.0, 0.3), (math.pi / 2, 0.9), (math.pi, 0.6))):
+        e = obj3d((5.0 + 10.0 * i, 2.0, 0.0), yaw=yaw_e + extra, label="car", score=conf, frame=fr, ego=ego)
+        g = obj3d((5.2 + 10.0 * i, 2.1, 0.0), yaw=yaw_g, label="car", score=1.0, frame=fr, ego=ego)
+        rs.append(DynamicObjectWithPerceptionResult(e, g, transforms=tf))
+    m = TPMetricsAph()
+    own = [m.get_value(x) for x in rs]
+    ap = Ap(TPMetricsAph(), [list(rs)], 3, [AW["car"]], MODES["center"], [1.0])
+    tl = list(ap.tp_list)
+    incr = [tl[0]] + [tl[i] - tl[i - 1] for i in range(1, len(tl))]
+    return incr, [own[1], own[2], own[0]]
+
+
 def measure_derived(yaw_e, yaw_g, rendering, ego):
     """the ground truth is not built afresh but derived by the library (interpolate_dynamic_object between two annotated objects that have
     already been scored, 30 degrees before / after yaw_g): physical heading yaw_g again -> (weight, yaw error)"""
@@ -102,6 +126,13 @@ def replay(arg):
                 if e_ < -math.pi - 1e-9 or e_ > math.pi + 1e-9 or abs(abs(e_) - want_d) > 1e-9:
                     mism.append(("yaw-error:" + tag, "yaw error %r, specification magnitude %r" % (e_, want_d), rep))
                     break
+        try:
+            incr, own = aph_of_three(ya, yb, rendering, eg)
+            if len(incr) != 3 or any(abs(x - y) > 1e-9 for x, y in zip(incr, own)) or abs(own[2] - want_w) > 1e-9:
+                mism.append(("aph-weight:not-its-own-pair", "three TPs in non-confidence order: tp_list increments %s, weights of the pairs in confidence order %s (first pair: specification %r)" % (
+                    incr, own, want_w), {"a": a, "b": b, "k": k, "rendering": rendering}))
+        except Exception as ex:
+            mism.append(("raised", "raised %r" % (ex,), {"a": a, "b": b, "k": k, "rendering": rendering}))
         n += 1
         rep = {"a": a, "b": b, "k": k, "rendering": rendering, "yaw_est": ya, "yaw_gt": yb, "ground_truth": "interpolated between two scored neighbours", "spec": out}
         try:
